@@ -739,8 +739,9 @@ def _ev(e, env):
             v = _ev(e.args[0], env)
             if isinstance(v, ModelObj):
                 return v.cls
-            if v is None or type(v) in (int, float, bool, str, bytes, tuple, list, dict, set, frozenset, complex):
-                return type(v)           # the builtin type itself (compared with `is` against the builtin names)
+            if v is None or isinstance(v, (int, float, bool, str, bytes, tuple, list, dict, set, frozenset, complex)) and \
+                    not getattr(v, "mi_native", False):
+                return type(v)           # the builtin type itself, or the subclass of it the model value is an instance of
             raise AnalysisError("miniinterp: type() of a non-model value")
         if d == "isinstance" and len(e.args) == 2:
             v0_ = None
